@@ -52,11 +52,13 @@ type bcEvent struct {
 	Corr int    `json:"corr"` // correlation id in the request / response header
 	Kind string `json:"kind"` // srv_send: behaviour; reset: source of the case
 	Res  string `json:"res"`  // call_ret: topic name echoed in the response; srv_send: content of the frame
-	Err  string `json:"err"`  // call_ret / close_ret: error text, "hang", "panic: ..."
+	Err  string `json:"err"`  // call_ret / close_ret: error text, "hang", "panic" (detail in res)
 	N    int    `json:"n"`    // reset: MaxOpenRequests; srv_send: 1 = well-formed complete frame
+	Us   int    `json:"us"`   // microseconds since the start of the case (diagnostics only)
 }
 
 type bcRec struct {
+	t0     time.Time
 	mu     sync.Mutex
 	evs    []bcEvent
 	closed bool
@@ -67,7 +69,7 @@ type bcRec struct {
 func (r *bcRec) ev(e bcEvent, fn func()) {
 	r.mu.Lock()
 	if !r.closed {
-		r.evs = append(r.evs, e)
+		r.add(e)
 	}
 	if fn != nil {
 		fn()
@@ -77,6 +79,12 @@ func (r *bcRec) ev(e bcEvent, fn func()) {
 	case r.wake <- struct{}{}:
 	default:
 	}
+}
+
+// add appends an event; the caller holds r.mu
+func (r *bcRec) add(e bcEvent) {
+	e.Us = int(time.Since(r.t0) / time.Microsecond)
+	r.evs = append(r.evs, e)
 }
 
 // waitFor waits until pred (evaluated under the recorder lock) holds or the timeout expires.
@@ -227,7 +235,7 @@ func (s *bcServer) answer(kind string) bool {
 			panic("unknown server behaviour " + kind)
 		}
 		if !s.rec.closed {
-			s.rec.evs = append(s.rec.evs, e)
+			s.rec.add(e)
 		}
 	}
 	s.rec.mu.Unlock()
@@ -281,7 +289,7 @@ func bcErrStr(err error) string {
 
 // bcRunCase replays one case and returns the recorded events.
 func bcRunCase(c *bcCase, hang time.Duration, st *bcStats) ([]bcEvent, error) {
-	rec := &bcRec{wake: make(chan struct{}, 1)}
+	rec := &bcRec{wake: make(chan struct{}, 1), t0: time.Now()}
 	srv, err := bcNewServer(rec)
 	if err != nil {
 		return nil, err
@@ -353,9 +361,9 @@ func bcRunCase(c *bcCase, hang time.Duration, st *bcStats) ([]bcEvent, error) {
 			res, errs := "", ""
 			defer func() {
 				if p := recover(); p != nil {
-					errs = "panic: " + fmt.Sprint(p)
-					if len(errs) > 120 {
-						errs = errs[:120]
+					errs, res = "panic", fmt.Sprint(p)
+					if len(res) > 120 {
+						res = res[:120]
 					}
 				}
 				rec.ev(bcEvent{Ev: "call_ret", C: id, Tag: tag, Res: res, Err: errs}, func() {
@@ -396,7 +404,7 @@ func bcRunCase(c *bcCase, hang time.Duration, st *bcStats) ([]bcEvent, error) {
 			errs := ""
 			defer func() {
 				if p := recover(); p != nil {
-					errs = "panic: " + fmt.Sprint(p)
+					errs = "panic"
 				}
 				rec.ev(bcEvent{Ev: "close_ret", Err: errs}, func() { closeReturned = true })
 			}()
@@ -406,24 +414,34 @@ func bcRunCase(c *bcCase, hang time.Duration, st *bcStats) ([]bcEvent, error) {
 	}
 
 	diverged := false
-	wantWrites, wantRets, wantClosed, pending := 0, 0, false, false
+	why := ""
+	stepNo := 0
+	wantWrites, wantRets, wantClosed, pending, slow := 0, 0, false, false, false
 	flush := func() {
 		if !pending {
 			return
 		}
 		pending = false
-		to := rt + 500*time.Millisecond
+		to := 250 * time.Millisecond
+		if slow {
+			to += rt // the awaited observation needs the read timeout to expire
+		}
+		slow = false
 		if diverged {
 			to = 3 * time.Millisecond
 		}
 		ok := rec.waitFor(func() bool {
 			return srv.nrecv >= wantWrites && nret >= wantRets && (!wantClosed || closeReturned)
 		}, to)
-		if !ok {
+		if !ok && !diverged {
 			diverged = true
+			rec.mu.Lock()
+			why = fmt.Sprintf("gate before step %d: writes %d/%d rets %d/%d closed %v/%v", stepNo, srv.nrecv, wantWrites, nret, wantRets, closeReturned, wantClosed)
+			rec.mu.Unlock()
 		}
 	}
-	for _, s := range c.Steps {
+	for k, s := range c.Steps {
+		stepNo = k
 		switch s.A {
 		case "write":
 			wantWrites++
@@ -442,15 +460,19 @@ func bcRunCase(c *bcCase, hang time.Duration, st *bcStats) ([]bcEvent, error) {
 			startClose()
 		case "srv":
 			flush()
-			if !srv.answer(s.Kind) {
+			slow = s.Kind == "trunc"
+			if !srv.answer(s.Kind) && !diverged {
 				diverged = true
+				why = fmt.Sprintf("nothing to answer at step %d", k)
 			}
 		case "timeout":
 			flush() // silence: the next gates wait for the read timeout to fail the call
+			slow = true
 		default:
 			return nil, fmt.Errorf("unknown step %q", s.A)
 		}
 	}
+	stepNo = len(c.Steps)
 	flush()
 
 	// drive to completion: answer whatever is still unanswered (only after a divergence),
@@ -465,7 +487,9 @@ func bcRunCase(c *bcCase, hang time.Duration, st *bcStats) ([]bcEvent, error) {
 			break
 		}
 		if canAnswer {
-			diverged = true
+			if !diverged {
+				diverged, why = true, "unanswered requests after the last step"
+			}
 			srv.answer("ok")
 			continue
 		}
@@ -483,7 +507,7 @@ func bcRunCase(c *bcCase, hang time.Duration, st *bcStats) ([]bcEvent, error) {
 	for _, tag := range hung {
 		id := outstanding[tag]
 		delete(outstanding, tag)
-		rec.evs = append(rec.evs, bcEvent{Ev: "call_ret", C: id, Tag: tag, Err: "hang"})
+		rec.add(bcEvent{Ev: "call_ret", C: id, Tag: tag, Err: "hang"})
 		atomic.AddInt64(&st.hangs, 1)
 	}
 	rec.mu.Unlock()
@@ -494,13 +518,17 @@ func bcRunCase(c *bcCase, hang time.Duration, st *bcStats) ([]bcEvent, error) {
 		rec.mu.Lock()
 		if !closeReturned {
 			closeReturned = true
-			rec.evs = append(rec.evs, bcEvent{Ev: "close_ret", Err: "hang"})
+			rec.add(bcEvent{Ev: "close_ret", Err: "hang"})
 			atomic.AddInt64(&st.hangs, 1)
 		}
 		rec.mu.Unlock()
 	}
 	rec.mu.Lock()
-	rec.evs = append(rec.evs, bcEvent{Ev: "done"})
+	dv := 0
+	if diverged {
+		dv = 1
+	}
+	rec.add(bcEvent{Ev: "done", N: dv, Res: why})
 	rec.closed = true
 	evs := rec.evs
 	rec.mu.Unlock()
@@ -533,6 +561,7 @@ func TestVerifBrokerConn(t *testing.T) {
 	errs := make([]error, len(cases))
 	st := &bcStats{}
 	var next int64 = -1
+	var skipped int64
 	var wg sync.WaitGroup
 	for w := 0; w < par; w++ {
 		wg.Add(1)
@@ -542,6 +571,10 @@ func TestVerifBrokerConn(t *testing.T) {
 				k := int(atomic.AddInt64(&next, 1))
 				if k >= len(cases) {
 					return
+				}
+				if atomic.LoadInt64(&st.hangs) >= 25 {
+					atomic.AddInt64(&skipped, 1) // the verdict is red anyway; do not wait for thousands of watchdogs
+					continue
 				}
 				for attempt := 0; attempt < 3; attempt++ {
 					results[k], errs[k] = bcRunCase(cases[k], hang, st)
@@ -570,6 +603,9 @@ func TestVerifBrokerConn(t *testing.T) {
 	var samples []interface{}
 	var sb strings.Builder
 	for k, evs := range results {
+		if evs == nil {
+			continue
+		}
 		for i, e := range evs {
 			body, _ := json.Marshal(e)
 			sb.WriteString(`{"t":` + strconv.Itoa(k+1) + `,"i":` + strconv.Itoa(i+1) + `,` + string(body[1:]) + "\n")
@@ -587,14 +623,14 @@ func TestVerifBrokerConn(t *testing.T) {
 			sb.Reset()
 		}
 	}
-	sb.WriteString(`{"t":` + strconv.Itoa(len(results)+1) + `,"i":1,"ev":"end","c":0,"tag":"","corr":0,"kind":"","res":"","err":"","n":0}` + "\n")
+	sb.WriteString(`{"t":` + strconv.Itoa(len(results)+1) + `,"i":1,"ev":"end","c":0,"tag":"","corr":0,"kind":"","res":"","err":"","n":0,"us":0}` + "\n")
 	nev++
 	f.WriteString(sb.String())
 	if err := f.Close(); err != nil {
 		t.Fatal(err)
 	}
 	vWriteJSON(t, "summary.json", map[string]interface{}{
-		"cases": st.cases, "events": nev, "diverged": st.diverged, "calls": st.calls,
+		"cases": st.cases, "skipped_after_many_hangs": skipped, "events": nev, "diverged": st.diverged, "calls": st.calls,
 		"ok_calls": st.okCalls, "err_calls": st.errCalls, "hangs": st.hangs,
 		"setup_retries": st.setupFailures, "panics_in_sarama_goroutines": atomic.LoadInt64(&bcPanics),
 		"cases_by_source": bySrc, "server_answers_by_kind": byKind, "samples": samples,
